@@ -87,7 +87,7 @@ TForward ==
   /\ \E i \in 1..Len(trans) : \E j \in 1..Len(trans[i].reqs) :
        /\ Forward(i, j, Ev.id)
        /\ LET f == fwd'[Len(fwd')].p IN
-            /\ f.k = Ev.p.k /\ f.a = Ev.p.a /\ f.n = Ev.p.n /\ f.d = Ev.p.d /\ f.m = Ev.p.m
+            /\ f.a = Ev.p.a /\ SamePayload(Ev.p, f)      \* data, size, kind, effective byte set
             /\ Ev.dst = PageIdx(f.a, cfg.nmem)
   /\ Same
 
@@ -176,7 +176,7 @@ TPhysAddr == LastOK(fwd, LAMBDA i :
                key \in DOMAIN pt /\ fwd[i].p.a = Phys(pt[key], o.a))
 TPayload == LastOK(fwd, LAMBDA i :
               LET o == orig[fwd[i].top].p IN
-              fwd[i].p.k = o.k /\ fwd[i].p.n = o.n /\ fwd[i].p.d = o.d /\ fwd[i].p.m = o.m)
+              SamePayload(fwd[i].p, o))
 TRspToOriginal == LastOK(rsps, LAMBDA i :
                     LET r == rsps[i] IN
                     /\ r.to \in DOMAIN orig
